@@ -270,3 +270,136 @@ def upper_bounded(atoms, limits):
 
 def truths(atoms, value=True):
     return {a[1] for a in atoms if a[0] == "truth" and a[2] is value}
+
+
+# ------------------------------------------------------- filtered local lists --
+def _elt_names(t):
+    """Element pattern of a loop target / appended value: [name or None per position] (a bare name is a 1-pattern)."""
+    if isinstance(t, ast.Name):
+        return [t.id]
+    if isinstance(t, (ast.Tuple, ast.List)):
+        return [e.id if isinstance(e, ast.Name) else None for e in t.elts]
+    return None
+
+
+def carried_facts(fnode, facts_of_cond, MustFactsCls):
+    """Facts that reach a loop through a *filtered local list*: `L = []` ... `L.append((X, ..))` only at sites where a fact about X
+    holds ... `for (V, ..) in L:` -- or `L = [(X, ..) for .. in .. if cond]` -- gives the same fact about V inside the loop.
+
+    facts_of_cond(test, branch) -> [(fact_kind, name)]   (the caller's gen_cond).
+    -> {id(for_node): frozenset((fact_kind, V))}.  L must be a local that is only assigned once, appended to, iterated, measured
+    (`len`, truthiness) or passed on as a whole; anything else (extend, insert, item assignment, +=) gives nothing."""
+    parent = {}
+    for n in _own(fnode):
+        for c in ast.iter_child_nodes(n):
+            parent[id(c)] = n
+    for c in ast.iter_child_nodes(fnode):
+        parent[id(c)] = fnode
+    stores = _stores(fnode)
+    lists = {}       # L -> [(pattern, facts at the producing site)]
+    for name, sts in stores.items():
+        if len(sts) != 1:
+            continue
+        asg = parent.get(id(sts[0]))
+        if not (isinstance(asg, (ast.Assign, ast.AnnAssign)) and getattr(asg, "value", None) is not None):
+            continue
+        v = asg.value
+        producers, ok = [], True
+        if isinstance(v, ast.ListComp):
+            pat = _elt_names(v.elt)
+            if pat is None:
+                continue
+            held = set()
+            for g in v.generators:
+                for cond in g.ifs:
+                    held |= set(facts_of_cond(cond, True))
+            producers.append((pat, held))
+        elif not (isinstance(v, ast.List) and not v.elts or isinstance(v, ast.Call) and isinstance(v.func, ast.Name) and v.func.id == "list" and not v.args):
+            continue
+        appends = []
+        for n in _own(fnode):
+            if isinstance(n, ast.Name) and n.id == name and isinstance(n.ctx, ast.Load):
+                p = parent.get(id(n))
+                if isinstance(p, ast.Attribute) and p.value is n:
+                    call = parent.get(id(p))
+                    if p.attr == "append" and isinstance(call, ast.Call) and call.func is p and len(call.args) == 1:
+                        appends.append(call)
+                    elif p.attr in ("copy", "count", "index", "__len__"):
+                        pass
+                    else:
+                        ok = False
+                elif isinstance(p, ast.Subscript) and isinstance(p.ctx, (ast.Store, ast.Del)):
+                    ok = False
+                elif isinstance(p, ast.AugAssign):
+                    ok = False
+        if not ok:
+            continue
+        if appends:
+            wanted = {}
+            for call in appends:
+                pat = _elt_names(call.args[0])
+                if pat is None:
+                    ok = False
+                    break
+                wanted[id(call)] = pat
+            if not ok:
+                continue
+            # which facts hold at each append site (one must-fact run; a fact is recorded when it holds for a name of the pattern)
+            found = {}
+
+            class _Probe(MustFactsCls):
+                def _expr(self, e, facts):
+                    if e is not None:
+                        for c in ast.walk(e):
+                            if id(c) in wanted:
+                                found[id(c)] = set(facts)
+                    return super()._expr(e, facts)
+            pr = _Probe(gen_cond=facts_of_cond, kill_names=lambda fact: [fact[1]])
+            pr.run(fnode)
+            for call in appends:
+                if id(call) not in found:
+                    ok = False
+                    break
+                producers.append((wanted[id(call)], found[id(call)]))
+            if not ok:
+                continue
+        if producers:
+            lists[name] = producers
+    out = {}
+    for n in _own(fnode):
+        if isinstance(n, (ast.For, ast.AsyncFor)) and isinstance(n.iter, ast.Name) and n.iter.id in lists:
+            tpat = _elt_names(n.target)
+            if tpat is None:
+                continue
+            common = None
+            for (pat, held) in lists[n.iter.id]:
+                if len(pat) != len(tpat):
+                    common = set()
+                    break
+                here = set()
+                for (kind, nm) in held:
+                    for k, x in enumerate(pat):
+                        if x == nm and tpat[k] is not None:
+                            here.add((kind, tpat[k]))
+                common = here if common is None else (common & here)
+            if common:
+                out[id(n)] = frozenset(common)
+    return out
+
+
+def carrying(MustFactsCls, carried):
+    """MustFacts subclass whose `for` rule adds the carried facts (see carried_facts) to the loop body's entry facts."""
+    class _Carrying(MustFactsCls):
+        def stmt(self, s, facts):
+            extra = carried.get(id(s)) if isinstance(s, (ast.For, ast.AsyncFor)) else None
+            if not extra:
+                return super().stmt(s, facts)
+            facts = self._expr(s.iter, facts)
+            inner = self._kill(facts, [s.target]) | extra
+            self.block(s.body, inner)
+            out = self._kill_assigned(facts, s.body)
+            out = self._kill(out, [s.target])
+            if s.orelse:
+                out = self.block(s.orelse, out)
+            return out
+    return _Carrying
